@@ -283,7 +283,7 @@ fn boxed_forms(tag: &str, m: &[u64], mc: &ModCase) -> Result<Obs, Fail> {
 // ------------------------------------------------------------------------------------------------
 // Uint<N> + BoxedUint twin
 
-fn mod_case<const N: usize>(t: &mut Tape, c: &mut Case) -> CaseResult {
+pub(crate) fn mod_case<const N: usize>(t: &mut Tape, c: &mut Case) -> CaseResult {
     let Some(mc) = mod_setup(t, c, N) else { return Ok(()) };
     let extra = t.usize_in(1, 2);
     let m = &mc.m;
@@ -455,7 +455,7 @@ impl_modulus!(Q256P, U256, "ffffffff00000001000000000000000000000000ffffffffffff
 impl_modulus!(Q256Low, U256, "0000000000000001000000000000000000000000000000000000000000000001");
 impl_modulus!(Q256Max, U256, "ffffffffffffffffffffffffffffffffffffffffffffffffffffffffffffffff");
 
-fn cmf_case<MOD: ConstMontyParams<N>, const N: usize>(t: &mut Tape, c: &mut Case) -> CaseResult {
+pub(crate) fn cmf_case<MOD: ConstMontyParams<N>, const N: usize>(t: &mut Tape, c: &mut Case) -> CaseResult {
     let m: Limbs = MOD::MODULUS.as_ref().as_words().to_vec();
     let k = (bit_len(&m) as usize).div_ceil(64);
     let d = 1 + t.weighted(&[3, 2, 1]);
